@@ -9,14 +9,15 @@ EXTENDS Wire
 
 SetOct(b, off, x) == [b EXCEPT ![off + 1] = x]
 
-\* REMB: mantissa shifted left by j, exponent lowered by j (same product)
+\* REMB: mantissa shifted left by j and exponent lowered by j, or mantissa
+\* shifted right by j (when divisible) and exponent raised by j: same product
+RembWith(b, e2, m2) == SetOct(SetOct(SetOct(b, 17, e2 * 4 + m2 \div 65536), 18, (m2 \div 256) % 256), 19, m2 % 256)
 RembVariants(v) ==
   LET b  == EncREMB(v)
       ex == At(b, 17) \div 4
       m  == (At(b, 17) % 4) * 65536 + At(b, 18) * 256 + At(b, 19)
-  IN  { LET m2 == m * (2 ^ j)  e2 == ex - j IN
-        SetOct(SetOct(SetOct(b, 17, e2 * 4 + m2 \div 65536), 18, (m2 \div 256) % 256), 19, m2 % 256)
-        : j \in { j \in 1..17 : j <= ex /\ m < 2 ^ (18 - j) /\ m > 0 } }
+  IN  { RembWith(b, ex - j, m * (2 ^ j)) : j \in { j \in 1..17 : j <= ex /\ m < 2 ^ (18 - j) /\ m > 0 } }
+      \cup { RembWith(b, ex + j, m \div (2 ^ j)) : j \in { j \in 1..17 : ex + j <= 63 /\ m > 0 /\ m % (2 ^ j) = 0 } }
 
 \* APP: 4 or 8 additional padding octets announced by the P bit
 AppVariants(v) ==
